@@ -2,6 +2,8 @@
 
 MC/IX: MC_Tables (mode epoch) - every small table x every epoch length: Partition / exactly-one-epoch are INVARIANTs of the model; the
        real epoch_df agrees on every case (closing extremum exactly on an epoch boundary and empty epochs included).
+PROOF: EpochProof.tla (TLAPS, 44 obligations): for ALL epoch lengths the intervals ((e-1)L, eL] are pairwise disjoint, cover every positive
+       index and stay within the signal - every cycle lands in exactly one epoch, without a bound.
 TV   : epoch_df on analysis tables of generated signals with random epoch lengths and lengths chosen so that a closing extremum falls
        exactly on a boundary; compute_features_2d(axis=None) with one option set (labels = those of the flattened analysis) and with a
        per-epoch list (each epoch re-labelled by the rule with its own thresholds, judged on rank codes), both methods and centrings.
@@ -11,6 +13,7 @@ import numpy as np
 import gen
 import mc_tables
 import tables_tv as tt
+import tlaps
 
 PREFIXES = ['C13.']
 
@@ -56,9 +59,11 @@ def run(ctx):
                 'compute_features_2d(axis=None) runs with >= 2 epochs, single and per-epoch option sets')
     if ctx.quick:
         mc_tables.run(ctx, 'C13', 8, 'epoch_df')
+        tlaps.run_proof(ctx, 'EpochProof', ['AtMostOneEpoch', 'SomeEpoch', 'WithinTheSignal', 'MulMono'])
         run_tv(ctx, 40, 60)
     else:
         mc_tables.run(ctx, 'C13', 10, 'epoch_df')
+        tlaps.run_proof(ctx, 'EpochProof', ['AtMostOneEpoch', 'SomeEpoch', 'WithinTheSignal', 'MulMono'])
         run_tv(ctx, 600, 800, max_len=2600)
 
 
